@@ -21,7 +21,7 @@ type c09 struct {
 type c09group struct {
 	L, B   int
 	layout int // 0 flat, 1 nested, 2 block in a loop
-	use    int // 0 none, 1 plain, 2 aliased, 3 aliased at level 1 and plain at the leaf
+	use    int // 0 none, 1 plain, 2 aliased, 3 aliased at level 1 and plain at the leaf, 4 two use statements in one template
 	n      int
 }
 
@@ -42,8 +42,8 @@ func (p *c09) Init(tier string, seed int64) {
 		for L := 1; L <= 3; L++ {
 			for B := 1; B <= 2; B++ {
 				for layout := 0; layout < 3; layout++ {
-					for use := 0; use < 4; use++ {
-						if (L == 1 && use > 0) || (L < 3 && use == 3) {
+					for use := 0; use < 5; use++ {
+						if (L == 1 && use > 0) || (L < 3 && use == 3) || (B < 2 && use == 4) {
 							continue
 						}
 						add(L, B, layout, use)
@@ -60,8 +60,8 @@ func (p *c09) Init(tier string, seed int64) {
 		for L := 1; L <= 4; L++ {
 			for B := 1; B <= 3; B++ {
 				for layout := 0; layout < 3; layout++ {
-					for use := 0; use < 4; use++ {
-						if (layout == 0 && use == 0) || (L == 1 && use > 0) || (L < 3 && use == 3) {
+					for use := 0; use < 5; use++ {
+						if (layout == 0 && use == 0) || (L == 1 && use > 0) || (L < 3 && use == 3) || (B < 2 && use == 4) {
 							continue
 						}
 						add(L, B, layout, use)
@@ -79,6 +79,10 @@ func blockBody(tag string, withParent bool, extra ...gen.Node) []gen.Node {
 	out := []gen.Node{tx("<" + tag + ":"), pr(&gen.ECall{Fn: "fn", Args: []gen.Expr{str(tag)}})}
 	if withParent {
 		out = append(out, tx("^("), pr(&gen.EParent{}), tx(")"))
+		if len(tag)%2 == 0 || strings.HasPrefix(tag, "ublk") {
+			// once more: what the first call did to the state must not change where the second one goes
+			out = append(out, tx("^^("), pr(&gen.EParent{}), tx(")"))
+		}
 	}
 	out = append(out, extra...)
 	return append(out, tx(">"))
@@ -130,6 +134,10 @@ func buildConfig(g c09group, pattern []int, exprParent bool, useLevel int) *Prog
 			}
 			body = append(body, u)
 		}
+		if g.use == 4 && k == useLevel {
+			// two use statements in one template: both libraries count
+			body = append(body, &gen.NUse{Tpl: str("ublk"), Aliases: [][2]string{{"orig0", "b0"}}}, &gen.NUse{Tpl: str("ublk2")})
+		}
 		if g.use == 3 {
 			// the same library at two levels: aliased onto b0 by the first child, as it is by the leaf
 			if k == 1 {
@@ -159,7 +167,12 @@ func buildConfig(g c09group, pattern []int, exprParent bool, useLevel int) *Prog
 		// imported blocks: the last block name, calling parent(), and an unrelated one
 		last := "b" + strconv.Itoa(g.B-1)
 		ts["ublk"] = tpl("ublk", &gen.NBlock{Name: last, Body: blockBody("ublk."+last, true)}, tx("IGNORED-ublk"))
-	} else if g.use >= 2 {
+	}
+	if g.use == 4 {
+		last := "b" + strconv.Itoa(g.B-1)
+		ts["ublk2"] = tpl("ublk2", &gen.NBlock{Name: last, Body: blockBody("ublk2."+last, true)}, &gen.NBlock{Name: "unrelated", Body: []gen.Node{tx("never")}})
+	}
+	if g.use >= 2 {
 		ts["ublk"] = tpl("ublk", &gen.NBlock{Name: "orig0", Body: blockBody("ublk.orig0", true)})
 	}
 	return &Program{Templates: ts, Main: tname(g.L - 1), Ctx: map[string]interface{}{}}
@@ -192,7 +205,7 @@ func (p *c09) build(i int) (*Program, string, bool) {
 	r := gen.Rng(p.seed, "c09", i)
 	L := 2 + r.Intn(3)
 	B := 2 + r.Intn(3)
-	g := c09group{L: L, B: B, layout: r.Intn(3), use: r.Intn(4)}
+	g := c09group{L: L, B: B, layout: r.Intn(3), use: r.Intn(5)}
 	if L < 3 && g.use == 3 {
 		g.use = 2
 	}
@@ -241,7 +254,7 @@ func (p *c09) Run(i int) (res fw.Result) {
 }
 
 func (p *c09) Rule() string {
-	return "bounded-exhaustive configurations: chain length L x block names B x for every non-root level and block one of {absent, override, override calling parent() - half of those with a nested block of their own in front of the call} (3^((L-1)B) patterns) x root layout {flat, blocks nested in b0, each block inside a 2-iteration loop} x use at one level {none, plain import of the last block name whose body calls parent(), aliased import 'orig0 as b0', the same library imported by the first child with that alias AND by the leaf without (L>=3)}; quick: L<=3, B<=2, all layouts and use variants; thorough: full product L<=4, B<=4 on the flat layout (3^12 patterns at the top size) and L<=4, B<=3 for the other layouts/use variants. Parents are named by an expression ('t' ~ '0') in a third of the cases; every child has content outside blocks that must not render. Random: larger shapes with block() calls, a root-only block in a loop with a nested block overridden by the leaf. Every block body prints a unique marker and calls a recording function; oracle = reference model output and the callback log including Context.Name() (must be the defining template, also inside parent() bodies). Non-trivial = chain >= 2 with >= 1 override; enumerated configurations are distinct by construction."
+	return "bounded-exhaustive configurations: chain length L x block names B x for every non-root level and block one of {absent, override, override calling parent() - half of those with a nested block of their own in front of the call} (3^((L-1)B) patterns) x root layout {flat, blocks nested in b0, each block inside a 2-iteration loop} x use at one level {none, plain import of the last block name whose body calls parent(), aliased import 'orig0 as b0', the same library imported by the first child with that alias AND by the leaf without (L>=3), two use statements in one template (B>=2)}; half of the parent()-calling bodies, and every imported one, call parent() twice; quick: L<=3, B<=2, all layouts and use variants; thorough: full product L<=4, B<=4 on the flat layout (3^12 patterns at the top size) and L<=4, B<=3 for the other layouts/use variants. Parents are named by an expression ('t' ~ '0') in a third of the cases; every child has content outside blocks that must not render. Random: larger shapes with block() calls, a root-only block in a loop with a nested block overridden by the leaf. Every block body prints a unique marker and calls a recording function; oracle = reference model output and the callback log including Context.Name() (must be the defining template, also inside parent() bodies). Non-trivial = chain >= 2 with >= 1 override; enumerated configurations are distinct by construction."
 }
 
 func (p *c09) Assumptions() []string {
